@@ -415,7 +415,9 @@ func occupant(contentMap map[string]*Content, dst string) (*Content, bool) {
 
 func sortedParents(dst string) []string {
 	paths := []string{}
-	base := strings.Trim(dst, "/")
+	// work on the normalized path: "a/." and "a/../b" have other parents
+	// than their spelling suggests
+	base := strings.Trim(NormalizeAbsoluteFilePath(dst), "/")
 	for {
 		base = filepath.Dir(base)
 		if base == "." {
@@ -619,5 +621,10 @@ func NormalizeAbsoluteFilePath(src string) string {
 
 // normalizeFirPath is linke NormalizeAbsoluteFilePath with a trailing slash.
 func NormalizeAbsoluteDirPath(path string) string {
-	return NormalizeAbsoluteFilePath(strings.TrimRight(path, "/")) + "/"
+	normalized := NormalizeAbsoluteFilePath(strings.TrimRight(path, "/"))
+	if normalized == "/" {
+		// the root directory already ends in a slash
+		return normalized
+	}
+	return normalized + "/"
 }
